@@ -217,6 +217,16 @@ class RegistryModel:
                 if not self._shape_ok(o, nm, key[0], key[1]):
                     self._viol("R3", f"{key}: generic object {o!r}")
                     return
+            # the model learns the objects from what the *public* call returned, whatever
+            # the library did internally
+            for o, nm in zip(objs, names):
+                prev = self.known[key].get(nm)
+                if prev is None:
+                    self.known[key][nm] = o
+                elif prev is not o:
+                    self._viol("R2", f"{key}: generic request returned a different object "
+                               f"for the already handed out name {nm}")
+                    return
             self.generic_out[key].extend(names)
 
     def _after_failure(self, what, exc, args):
